@@ -92,6 +92,7 @@ pub fn c17_py(file: usize, regions: usize, out: &mut Outcome) {
         chrom_block: 64,
         chrom_level_order: false,
             chrom_ids_in_given_order: false,
+            chrom_ids_reverse_of_keys: false,
         fanout: 2,
         placement: Placement::LevelOrder,
         zooms: vec![],
@@ -241,6 +242,7 @@ pub fn c19_py(schema: Option<(String, usize, usize)>, extra: usize, out: &mut Ou
         chrom_block: 64,
         chrom_level_order: false,
             chrom_ids_in_given_order: false,
+            chrom_ids_reverse_of_keys: false,
         fanout: 4,
         placement: Placement::LevelOrder,
         zooms: vec![],
@@ -329,10 +331,21 @@ pub fn py_records_check(bytes: &[u8], bed: bool, queries: &[PyQuery], expected: 
     let path = dir.join(if bed { "f.bb" } else { "f.bw" });
     std::fs::write(&path, bytes).unwrap();
     let qs: Vec<Value> = queries.iter().map(|(c, s, e)| json!([c, s, e])).collect();
-    let reqs = json!([
-        {"op": "records", "path": path.to_str().unwrap(), "file_object": false, "queries": qs},
-        {"op": "records", "path": path.to_str().unwrap(), "file_object": true, "queries": qs},
-    ]);
+    // zoom_records() of the first stored level for the same queries (answers compared below with the
+    // library's get_zoom_interval on the documented range)
+    let zoom_level: Option<u32> = if bed {
+        bigtools::BigBedRead::open(std::io::Cursor::new(bytes.to_vec())).ok().and_then(|r| r.info().zoom_headers.first().map(|z| z.reduction_level))
+    } else {
+        bigtools::BigWigRead::open(std::io::Cursor::new(bytes.to_vec())).ok().and_then(|r| r.info().zoom_headers.first().map(|z| z.reduction_level))
+    };
+    let mut reqs = vec![
+        json!({"op": "records", "path": path.to_str().unwrap(), "file_object": false, "queries": qs}),
+        json!({"op": "records", "path": path.to_str().unwrap(), "file_object": true, "queries": qs}),
+    ];
+    if let Some(lv) = zoom_level {
+        reqs.push(json!({"op": "records", "path": path.to_str().unwrap(), "file_object": false, "queries": qs, "zoom": lv}));
+    }
+    let reqs = Value::Array(reqs);
     let res = match py_run(dir, &reqs) {
         Ok(r) => r,
         Err(e) => {
@@ -344,12 +357,59 @@ pub fn py_records_check(bytes: &[u8], bed: bool, queries: &[PyQuery], expected: 
         out.fail("python_binding_died", tags, format!("{}: {}", what, d));
         return;
     }
-    for (ri, r) in res.iter().enumerate() {
+    // the zoom answers (third result)
+    if let (Some(lv), Some(r)) = (zoom_level, res.get(2)) {
+        match r.get("ok").and_then(|ok| ok["answers"].as_array().cloned()) {
+            None => out.fail("python_records_failed", tags, format!("{} zoom_records({}): {}", what, lv, r.get("err").map(|e| e.to_string()).unwrap_or_default())),
+            Some(answers) => {
+                // chromosome lengths from the library
+                let lens: std::collections::HashMap<String, u32> = if bed {
+                    bigtools::BigBedRead::open(std::io::Cursor::new(bytes.to_vec())).map(|r| r.chroms().iter().map(|c| (c.name.clone(), c.length)).collect()).unwrap_or_default()
+                } else {
+                    bigtools::BigWigRead::open(std::io::Cursor::new(bytes.to_vec())).map(|r| r.chroms().iter().map(|c| (c.name.clone(), c.length)).collect()).unwrap_or_default()
+                };
+                for (q, a) in queries.iter().zip(answers.iter()) {
+                    let Some(len) = lens.get(&q.0) else { continue };
+                    let Some((s, e)) = py_effective_range(*len, q.1, q.2) else { continue };
+                    let want: Option<Vec<(u64, u64)>> = if bed {
+                        bigtools::BigBedRead::open(std::io::Cursor::new(bytes.to_vec())).ok().and_then(|mut r| r.get_zoom_interval(&q.0, s, e, lv).ok().map(|it| it.filter_map(|z| z.ok()).map(|z| (z.start as u64, z.end as u64)).collect()))
+                    } else {
+                        bigtools::BigWigRead::open(std::io::Cursor::new(bytes.to_vec())).ok().and_then(|mut r| r.get_zoom_interval(&q.0, s, e, lv).ok().map(|it| it.filter_map(|z| z.ok()).map(|z| (z.start as u64, z.end as u64)).collect()))
+                    };
+                    let Some(want) = want else { continue };
+                    out.count("python_zoom_record_queries", 1);
+                    match a.get("ok").and_then(|x| x.as_array()) {
+                        None => out.fail("python_records_failed", tags, format!("{} zoom_records({}, {:?}): {}", what, lv, q, a.get("err").map(|e| e.to_string()).unwrap_or_default())),
+                        Some(rows) => {
+                            let got: Vec<(u64, u64)> = rows.iter().filter_map(|r| Some((r.get(0)?.as_u64()?, r.get(1)?.as_u64()?))).collect();
+                            if got != want {
+                                out.fail("python_records_differ_from_library_query", tags, format!("{} zoom_records({}, {:?}): {} records {:?}, the library's zoom query gives {} {:?}", what, lv, q, got.len(), got.iter().take(3).collect::<Vec<_>>(), want.len(), want.iter().take(3).collect::<Vec<_>>()));
+                            }
+                        }
+                    }
+                }
+            }
+        }
+    }
+    for (ri, r) in res.iter().enumerate().take(2) {
         let src = if ri == 0 { "path" } else { "file object" };
         let Some(ok) = r.get("ok") else {
             out.fail("python_records_failed", tags, format!("{} ({}): {}", what, src, r.get("err").map(|e| e.to_string()).unwrap_or_default()));
             continue;
         };
+        // chroms(): the whole table, in the file's order (first appearance), with the sizes
+        {
+            let rd_chroms: Vec<(String, u64)> = if bed {
+                bigtools::BigBedRead::open(std::io::Cursor::new(bytes.to_vec())).map(|r| r.chroms().iter().map(|c| (c.name.clone(), c.length as u64)).collect()).unwrap_or_default()
+            } else {
+                bigtools::BigWigRead::open(std::io::Cursor::new(bytes.to_vec())).map(|r| r.chroms().iter().map(|c| (c.name.clone(), c.length as u64)).collect()).unwrap_or_default()
+            };
+            let got: Vec<(String, u64)> = ok["chroms"].as_array().map(|a| a.iter().filter_map(|p| Some((p.get(0)?.as_str()?.to_string(), p.get(1)?.as_u64()?))).collect()).unwrap_or_default();
+            out.count("python_chromosome_tables", 1);
+            if got != rd_chroms {
+                out.fail("python_chromosome_table_differs", tags, format!("{} ({}) chroms() = {:?}, the library's table is {:?}", what, src, got, rd_chroms));
+            }
+        }
         let answers = ok["answers"].as_array().cloned().unwrap_or_default();
         if answers.len() != queries.len() {
             out.fail("harness_panic", &[], format!("{} answers for {} queries", answers.len(), queries.len()));
